@@ -518,6 +518,10 @@ def job_sweep(doc):
                 f.update(kind="jump", dur=round(b * 1.02 + 0.001, 6))
                 positions.append(f)
             else:
+                if worker is not None and site != "exit":
+                    # a worker may also be killed, or fail, at each of its solver calls
+                    positions.append(dict(f, kind="crash"))
+                    positions.append(dict(f, kind="error"))
                 f.update(kind="slow", dur=round(b * 1.02 + 0.001, 6))
                 if site == "opt.check":
                     for fl in sw.get("flavours", ["a", "b", "c"]):
@@ -568,6 +572,69 @@ def job_sweep(doc):
         slim["doc"] = d
         results.append(slim)
     return {"sweep_results": results, "positions": len(positions), "counts": _counts_json(counts)}
+
+
+def job_orders(doc):
+    """C13 schedule enumeration for ONE parallel call: every completion order of its workers
+    (n <= 4) x every subset of workers stalled beyond the join window (n <= 3), the delay placed
+    either before the result is written (slow first solver call) or after it (exit stall)."""
+    import itertools
+
+    o = doc["orders"]["op"]
+    n = len(doc["ops"][o]["batch"])
+    results = []
+    plans = []
+    for perm in itertools.permutations(range(n)):
+        for stalled in itertools.chain.from_iterable(itertools.combinations(range(n), r) for r in range(0, min(n, 2) + 1)):
+            for mode in ("exit", "first"):
+                faults = []
+                for rank, j in enumerate(perm):
+                    dur = 0.4 * (rank + 1) + (11.0 if j in stalled else 0.0)
+                    if mode == "exit":
+                        faults.append({"op": o, "worker": j, "site": "exit", "k": 0, "kind": "stall", "dur": dur})
+                    else:
+                        faults.append({"op": o, "worker": j, "site": "z3.check", "k": 0, "kind": "slow", "dur": dur})
+                plans.append(faults)
+    cap = int(doc["orders"].get("max", 200))
+    if len(plans) > cap:
+        rng = stream(doc["seed"], "orders")
+        plans = [plans[i] for i in sorted(rng.sample(range(len(plans)), cap))]
+    for faults in plans:
+        d = {k: v for k, v in doc.items() if k not in ("orders", "fault_plan")}
+        d["faults"] = faults
+        d["class"] = "stall"  # flagged rows of stalled workers are allowed, everything else is not
+        r, w = os.pipe()
+        pid = os.fork()
+        if pid == 0:
+            try:
+                os.close(r)
+                try:
+                    res = run_scenario(d)
+                except BaseException as e:  # noqa: BLE001
+                    res = {"harness_error": "%s: %s" % (type(e).__name__, e), "tb": traceback.format_exc()[-1500:]}
+                slim = {k: res.get(k) for k in ("violations", "digest", "vtime", "fired", "nontrivial", "state_keys", "harness_error", "probes")}
+                data = pickle.dumps(slim)
+                off = 0
+                while off < len(data):
+                    off += os.write(w, data[off : off + 65536])
+            finally:
+                os._exit(0)
+        os.close(w)
+        chunks = []
+        while True:
+            bts = os.read(r, 1 << 16)
+            if not bts:
+                break
+            chunks.append(bts)
+        os.close(r)
+        os.waitpid(pid, 0)
+        try:
+            slim = pickle.loads(b"".join(chunks))
+        except Exception:  # noqa: BLE001
+            slim = {"harness_error": "orders child died"}
+        slim["doc"] = d
+        results.append(slim)
+    return {"sweep_results": results, "positions": len(plans)}
 
 
 # ======================================================================================
@@ -832,6 +899,8 @@ SPECS = {
     "C13": {
         "n_quick": 700,
         "n_thorough": 16000,
+        "orders_quick": 4,
+        "orders_thorough": 120,
         "recheck": 10,
         "rule": (
             "scenario = base (generated through the real parser, or shipped example) + 1-3 managers (operator x back-end x mode) + 2-6 inference() calls "
@@ -880,6 +949,19 @@ SPECS = {
 
 def jobs(prop, verif_seed, n, tier):
     jid = 0
+    if prop == "C13":
+        ns = int(os.environ.get("VERIF_SWEEPS") or SPECS["C13"]["orders_" + tier])
+        made, idx = 0, 10**6
+        while made < ns and idx < 10**6 + 60 * ns + 60:
+            doc = generate("C13", verif_seed, idx, tier, cls="par")
+            idx += 1
+            cand = [i for i, op in enumerate(doc["ops"]) if op["op"] == "inference" and op.get("multi") and 2 <= len(op["batch"]) <= 4]
+            if not cand:
+                continue
+            doc.pop("fault_plan", None)
+            doc["orders"] = {"op": g_pick(cand, verif_seed, idx), "max": 120 if tier == "quick" else 400}
+            yield {"id": "orders%d" % made, "engine": NAME, "func": "orders", "doc": doc, "wall_cap": 900}
+            made += 1
     if prop == "C14":
         ns = int(os.environ.get("VERIF_SWEEPS") or SPECS["C14"]["sweeps_" + tier])
         made = 0
@@ -887,7 +969,10 @@ def jobs(prop, verif_seed, n, tier):
         while made < ns and idx < 10**6 + 50 * ns + 50:
             doc = generate("C14", verif_seed, idx, tier, cls=("poison", "z3", "seq", "z3")[made % 4], recover=True)
             idx += 1
-            cand = [i for i, op in enumerate(doc["ops"]) if op["op"] == "inference" and _budget_of(op) > 0 and not op.get("multi")]
+            want_multi = tier == "thorough" and made % 8 == 7
+            if want_multi:
+                doc = generate("C14", verif_seed, idx, tier, cls="par", recover=True)
+            cand = [i for i, op in enumerate(doc["ops"]) if op["op"] == "inference" and _budget_of(op) > 0 and bool(op.get("multi")) == want_multi]
             if not cand:
                 continue
             doc.pop("fault_plan", None)
@@ -897,6 +982,10 @@ def jobs(prop, verif_seed, n, tier):
     for i in range(n):
         yield {"id": jid, "engine": NAME, "func": "execute", "doc": generate(prop, verif_seed, i, tier), "wall_cap": 120}
         jid += 1
+
+
+def g_pick(cand, verif_seed, idx):
+    return cand[derive(verif_seed, "orders-pick", idx) % len(cand)]
 
 
 def sample_view(res):
